@@ -38,7 +38,7 @@ def check_program(src, arg_idx, depth, max_runs, recorded):
     except SyntaxError as e:
         return "fail", "C07:syntax", f"regenerated source does not compile: {e}", {}
     args = [A.ARG_POOL[i % len(A.ARG_POOL)] for i in arg_idx]
-    stats, mm = A.compare_behaviour(X.factory_from_source(src, "f"), X.factory_from_source(new_src, "transformed_f"), args, depth, max_runs)
+    stats, mm = A.compare_behaviour(X.factory_from_source(src, "f"), X.factory_from_source(new_src, ast.parse(new_src).body[0].name), args, depth, max_runs)
     if mm:
         sig = P.mismatch_sig(PID, feats, recorded)
         if A.pruned_local_symptom(src, new_src, mm):
